@@ -4,6 +4,7 @@
 # then records the seed under /verif/seeded/<id>/ together with the verdict of the checks on the changed tree.
 set -u
 src=$1; id=$2; prop=$3; needs=$4
+if [ ! -f $src/demo_test.go ] && [ -f $src/demo_test.go.txt ]; then mkdir -p /tmp/sv-src-$id; cp $src/patch.diff /tmp/sv-src-$id/; cp $src/demo_test.go.txt /tmp/sv-src-$id/demo_test.go; [ -f $src/notes.md ] && cp $src/notes.md /tmp/sv-src-$id/; src=/tmp/sv-src-$id; fi
 export GOFLAGS=-mod=mod GOPROXY=off GOSUMDB=off GOTOOLCHAIN=local
 wt=/tmp/sv-$id
 git -C /repo worktree remove --force $wt 2>/dev/null
@@ -31,7 +32,7 @@ git -C /repo worktree remove --force $wt; rm -rf /tmp/sv-$id.out
 echo "$id: suite_with_change=$suite (0=pass) demo_with_change=$mut_demo (nonzero=fails) demo_without=$clean_demo (0=pass) caught_by=[$hits] rules=[$rules]"
 if [ $suite -eq 0 ] && [ $mut_demo -ne 0 ] && [ $clean_demo -eq 0 ]; then
   mkdir -p /verif/seeded/$id
-  cp $src/patch.diff /verif/seeded/$id/patch.diff
+  [ "$src" != "/verif/seeded/$id" ] && cp $src/patch.diff /verif/seeded/$id/patch.diff
   cp $src/demo_test.go /verif/seeded/$id/demo_test.go.txt
   [ -f $src/notes.md ] && cp $src/notes.md /verif/seeded/$id/notes.md
   python3 - "$id" "$prop" "$needs" "$hits" "$rules" "$pkgdir" "$names" <<'PY'
